@@ -948,15 +948,23 @@ class Check(PropertyCheck):
         V['paren'] = parse_real(render_text(case['lines'], plain='paren'))
         V['bare'] = parse_real(render_text(case['lines'], plain='bare'))
         # unsupported lines removed: unsupported shapes; unsupported frames with the region lines of their scope
+        # (an unsupported shape WITHOUT `||` inside an open composite is that composite's last member: it yields no region
+        # but it ends the composite, so it is not a removable line -- theorem unsupported_shape_skipped has the same proviso)
         keep = []
         dead = False
+        comp_open = False
         for s in stmts:
             if s['t'] == 'badframe':
                 dead = True
                 continue
             if s['t'] == 'frame':
                 dead = False
-            if s['t'] == 'badshape' or (dead and s['t'] in ('region', 'composite')):
+            terminator = s['t'] == 'badshape' and not s.get('cont') and comp_open
+            if s['t'] == 'composite':
+                comp_open = True
+            elif s['t'] in ('region', 'badshape') and not s.get('cont'):
+                comp_open = False
+            if (s['t'] == 'badshape' and not terminator) or (dead and s['t'] in ('region', 'composite', 'badshape')):
                 continue
             keep.append(s)
         V['nobad'] = parse_real(render_text(relayout(keep, 'nl')))
